@@ -17,6 +17,7 @@ package vs
 import (
 	"fmt"
 	"runtime"
+	"sync/atomic"
 	"testing"
 	"testing/synctest"
 	"time"
@@ -880,7 +881,7 @@ func NewExplorer(t *testing.T, o Opts, s Scenario) *Explorer {
 // RunOne executes one choice sequence (prefix, then default choices).
 func (e *Explorer) RunOne(prefix []int, dupIdx int, dupSeen []int) *Result {
 	if e.Beat != nil {
-		*e.Beat++
+		atomic.AddInt64(e.Beat, 1)
 	}
 	if e.pointBuf == nil {
 		e.pointBuf = make([]Point, e.Opts.MaxPoints)
